@@ -36,6 +36,9 @@ def build_cases(tier, seed):
         lists = [l for L in range(1, maxlen + 1) for l in itertools.product(items_int, repeat=L)]
         lists_rat = [l for L in range(1, maxlen + 1) for l in itertools.product(items_rat, repeat=L)]
         lists_rat += [(a, b) for a in items_int[::3] for b in items_rat]
+        # weights around one million: exact transfer values with denominators above 10**6
+        big = [(r, w) for r in R3 for w in (1000003, 999983)]
+        lists_rat += [(a, b) for a in big[::2] for b in big[1::3]]
     else:
         lists = [l for L in range(1, 3) for l in itertools.product(items_int, repeat=L)]
         # length 3 over weights {1,2}: 30^3 = 27000 lists
@@ -52,7 +55,8 @@ def build_cases(tier, seed):
     _CASES = cs
     meta = {
         "family": f"Part A: all ordered ballot lists (repetitions allowed) of length <= {maxlen} over Rank(3) x weights "
-                  "{1,2,3} (both rules) and {1/2,3/2} (fractional rule) x every winner x every integer threshold 1..tally "
+                  "{1,2,3} (both rules), {1/2,3/2} and {1000003,999983} (fractional rule) x every winner x every integer threshold 1..tally "
+                  "(six representative thresholds when the tally exceeds 9) "
                   f"x every outcome of random.sample ({na} lists); Part B: every STV run (fractional and random transfer) of "
                   + common.family_text(tier) + " x m x quota x simultaneous x tiebreak=random, all paths",
         "assumptions": [
@@ -136,7 +140,9 @@ def part_a(i, tag, blist, cnt, out):
         # images under deletion of w
         def strip(r):
             return tuple(c for c in _lin(r) if c != w)
-        for thr in range(1, math.floor(t) + 1):
+        ft = math.floor(t)
+        thresholds = range(1, ft + 1) if ft <= 9 else sorted({1, 2, ft // 3 + 1, ft // 2, ft - 1, ft})
+        for thr in thresholds:
             ballots = [vkit.mk_ballot(r, x) for r, x in blist]
             # ---------------- fractional ---------------------------------------------
             exp = {}
